@@ -23,3 +23,8 @@ package market
 //@   loop 1 invariant #index: index >= -1 && index < idx1
 //@   loop 1 invariant #inv: twaInv(k, ctx, n)
 //@   loop 1 invariant #batch: twaBatch == n
+
+// Genesis import (C20): whatever state an export produced, importing it never panics.
+//@ func InitGenesis
+//@   property C20
+//@   nopanic
